@@ -135,6 +135,23 @@ pub enum Val {
     E(Expr),
 }
 
+/// specification of a produced handle for the *sampled-evaluation* oracle (used when there are more
+/// than 6 variables, where truth tables are off): the result diagram is evaluated on 64 fixed
+/// assignments and compared with the specification evaluated on the argument diagrams
+pub enum Spec {
+    Var(u32),
+    Node(u32, Ref, Ref),
+    Not(Ref),
+    Ite(Ref, Ref, Ref),
+    Bin(u8, Ref, Ref),
+    Many(bool, Vec<Ref>),
+    Cube(bool, Vec<i32>),
+    Fix(Ref, Vec<(u32, bool)>),
+    Compose(Ref, u32, Ref),
+    Care(Ref, Ref),
+    Expr(EFn),
+}
+
 pub struct Exec {
     pub bdd: Option<Bdd>,
     pub env: Vec<Ref>,
@@ -174,6 +191,9 @@ pub struct Exec {
     cur_file: Option<std::fs::File>,
     /// abstract reply mode (see the driver): canonical diagrams instead of indices, no snapshots
     pub abs: bool,
+    pub pending_spec: Option<Spec>,
+    samples: Vec<u64>,
+    sig: Vec<Option<u64>>,
 }
 
 impl Exec {
@@ -213,6 +233,19 @@ impl Exec {
             log_prefix: None,
             cur_file: None,
             abs: false,
+            pending_spec: None,
+            samples: {
+                let mut v = vec![0u64, u64::MAX, 0x5555_5555_5555_5555, 0xAAAA_AAAA_AAAA_AAAA];
+                let mut x = 0x9E37_79B9_7F4A_7C15u64;
+                while v.len() < 64 {
+                    x ^= x << 13;
+                    x ^= x >> 7;
+                    x ^= x << 17;
+                    v.push(x);
+                }
+                v
+            },
+            sig: vec![],
         }
     }
 
@@ -356,6 +389,153 @@ impl Exec {
         Ok(t)
     }
 
+    /// value of the diagram below `r` under the assignment `e` (bit v-1 = variable v)
+    pub fn eval_at(&self, r: Ref, e: u64) -> Result<bool, String> {
+        let st = self.bdd().storage();
+        let mut cur = r;
+        let mut neg = false;
+        for _ in 0..200 {
+            neg ^= cur.is_negated();
+            let i = cur.index() as usize;
+            if i == 1 {
+                return Ok(!neg);
+            }
+            if i == 0 || i >= st.capacity() || !st.cell_flags(i).0 {
+                return Err(format!("edge to cell {} which is not stored", i));
+            }
+            let n = st.cell_value(i);
+            if n.variable == 0 || n.variable > 64 {
+                return Err(format!("variable {} outside 1..=64", n.variable));
+            }
+            cur = if (e >> (n.variable - 1)) & 1 == 1 { n.high } else { n.low };
+        }
+        Err("diagram deeper than 200".into())
+    }
+
+    fn spec_at(&self, sp: &Spec, e: u64) -> Result<Option<bool>, String> {
+        let bit = |v: u32| v >= 1 && v <= 64 && (e >> (v - 1)) & 1 == 1;
+        Ok(Some(match sp {
+            Spec::Var(v) => bit(*v),
+            Spec::Node(v, lo, hi) => {
+                if bit(*v) {
+                    self.eval_at(*hi, e)?
+                } else {
+                    self.eval_at(*lo, e)?
+                }
+            }
+            Spec::Not(a) => !self.eval_at(*a, e)?,
+            Spec::Ite(f, g, h) => {
+                if self.eval_at(*f, e)? {
+                    self.eval_at(*g, e)?
+                } else {
+                    self.eval_at(*h, e)?
+                }
+            }
+            Spec::Bin(k, a, b) => {
+                let (x, y) = (self.eval_at(*a, e)?, self.eval_at(*b, e)?);
+                match k {
+                    0 => x & y,
+                    1 => x | y,
+                    2 => x ^ y,
+                    3 => x == y,
+                    _ => !x | y,
+                }
+            }
+            Spec::Many(is_and, rs) => {
+                let mut acc = *is_and;
+                for r in rs {
+                    let x = self.eval_at(*r, e)?;
+                    acc = if *is_and { acc & x } else { acc | x };
+                }
+                acc
+            }
+            Spec::Cube(is_cube, lits) => {
+                let mut acc = *is_cube;
+                for &l in lits {
+                    let x = bit(l.unsigned_abs()) == (l > 0);
+                    acc = if *is_cube { acc & x } else { acc | x };
+                }
+                acc
+            }
+            Spec::Fix(f, fixes) => {
+                let mut e2 = e;
+                for &(v, b) in fixes {
+                    if v >= 1 && v <= 64 {
+                        e2 = if b { e2 | (1 << (v - 1)) } else { e2 & !(1 << (v - 1)) };
+                    }
+                }
+                self.eval_at(*f, e2)?
+            }
+            Spec::Compose(f, v, g) => {
+                let gv = self.eval_at(*g, e)?;
+                let e2 = if *v >= 1 && *v <= 64 {
+                    if gv {
+                        e | (1 << (v - 1))
+                    } else {
+                        e & !(1 << (v - 1))
+                    }
+                } else {
+                    e
+                };
+                self.eval_at(*f, e2)?
+            }
+            Spec::Care(f, g) => {
+                if self.eval_at(*g, e)? {
+                    self.eval_at(*f, e)?
+                } else {
+                    return Ok(None);
+                }
+            }
+            Spec::Expr(x) => match x.eval_s(self, e)? {
+                Some(b) => b,
+                None => return Ok(None),
+            },
+        }))
+    }
+
+    fn signature(&self, r: Ref) -> Option<u64> {
+        let mut sg = 0u64;
+        for (k, &e) in self.samples.iter().enumerate() {
+            match self.eval_at(r, e) {
+                Ok(true) => sg |= 1 << k,
+                Ok(false) => {}
+                Err(_) => return None,
+            }
+        }
+        Some(sg)
+    }
+
+    /// sampled-evaluation oracle for a freshly produced handle (more than 6 variables)
+    fn check_sampled(&mut self, r: Ref, sp: Spec, props: &[&'static str]) {
+        for k in 0..self.samples.len() {
+            let e = self.samples[k];
+            let want = match self.spec_at(&sp, e) {
+                Ok(w) => w,
+                Err(_) => return, // an argument cannot be evaluated (variable > 64): no verdict
+            };
+            let got = match self.eval_at(r, e) {
+                Ok(g) => g,
+                Err(m) => {
+                    let mut ps: Vec<&'static str> = props.to_vec();
+                    for extra in ["C04", "C01"] {
+                        if !ps.contains(&extra) {
+                            ps.push(extra);
+                        }
+                    }
+                    self.fail(&ps, format!("result {}: {}", show_ref(r), m));
+                    return;
+                }
+            };
+            if let Some(w) = want {
+                if w != got {
+                    self.fail(props, format!("result {} is {} under the assignment {:#x}, the specification says {}", show_ref(r), got, e, w));
+                    return;
+                }
+            }
+        }
+        *self.stats.entry("sampled_checks".into()).or_insert(0) += 1;
+    }
+
     /// cells reachable from the given handles (own DFS, independent of `descendants`)
     pub fn reach(&self, roots: &[Ref]) -> HashSet<u32> {
         let st = self.bdd().storage();
@@ -387,9 +567,33 @@ impl Exec {
         // index 0 is the `Ref::ZERO` sentinel (what the accessors of the terminal return): not a
         // handle, never used as an argument
         self.live.push(r.index() != 0);
+        let pending = self.pending_spec.take();
         if r.index() == 0 {
             self.exp.push(None);
+            self.sig.push(None);
             return;
+        }
+        if self.tt.is_none() {
+            if let Some(sp) = pending {
+                self.check_sampled(r, sp, props);
+            }
+            // signature (values on the 64 samples): a handle must keep it for as long as it is live
+            let sg = self.signature(r);
+            if let Some(g) = sg {
+                for i in 0..self.env.len() - 1 {
+                    if self.env[i] == r && self.live[i] {
+                        if let Some(Some(g0)) = self.sig.get(i) {
+                            if *g0 != g {
+                                self.fail(&["C01"], format!("handle {} changed its values on the sample assignments: {:#x} -> {:#x}", show_ref(r), g0, g));
+                            }
+                        }
+                        break;
+                    }
+                }
+            }
+            self.sig.push(sg);
+        } else {
+            self.sig.push(None);
         }
         let mut exp = expected;
         if let (Some(_), Some(e)) = (self.tt, expected) {
@@ -479,9 +683,11 @@ impl Exec {
 
     fn bind_panic(&mut self) {
         let z = self.bdd().zero;
+        self.pending_spec = None;
         self.env.push(z);
         self.live.push(true);
         self.exp.push(self.tt.map(|_| 0));
+        self.sig.push(if self.tt.is_none() { Some(0) } else { None });
     }
 
     fn h(&self, t: &str) -> Option<usize> {
@@ -713,6 +919,8 @@ impl Exec {
                 self.env.clear();
                 self.live.clear();
                 self.exp.clear();
+                self.sig.clear();
+                self.pending_spec = None;
                 self.canon.clear();
                 self.byref.clear();
                 self.shadow.clear();
@@ -726,6 +934,7 @@ impl Exec {
                         self.env.push(one);
                         self.env.push(zero);
                         self.live.extend([true, true]);
+                        self.sig.extend([Some(u64::MAX), Some(0)]);
                         let full = self.tt.map(|t| t.full());
                         self.exp.push(full);
                         self.exp.push(self.tt.map(|_| 0));
@@ -819,6 +1028,9 @@ impl Exec {
             "var" => {
                 let v: u32 = toks[1].parse().unwrap();
                 let e = tt.and_then(|t| if v >= 1 && v <= t.n { Some(t.var(v)) } else { None });
+                if v >= 1 {
+                    self.pending_spec = Some(Spec::Var(v));
+                }
                 self.produce(&["C15"], e, |b| b.mk_var(v))
             }
             "node" => {
@@ -830,6 +1042,9 @@ impl Exec {
                     (Some(t), Some(a), Some(b)) if ordered && v <= t.n => Some(t.ite(t.var(v), b, a)),
                     _ => None,
                 };
+                if ordered {
+                    self.pending_spec = Some(Spec::Node(v, rlo, rhi));
+                }
                 let r = self.produce(&["C15"], e, |b| b.mk_node(v, rlo, rhi));
                 if rlo == rhi && !r.starts_with("panic") && self.env.last() != Some(&rlo) {
                     self.fail(&["C15"], format!("mk_node with equal children returned {}", r));
@@ -843,6 +1058,7 @@ impl Exec {
                     (Some(t), Some(x)) => Some(t.not(x)),
                     _ => None,
                 };
+                self.pending_spec = Some(Spec::Not(ra));
                 let r = self.produce(&["C01", "C03"], e, |b| b.apply_not(ra));
                 if -(-ra) != ra || -ra == ra {
                     self.fail(&["C01"], format!("negation is not a free involution on {}", show_ref(ra)));
@@ -856,6 +1072,7 @@ impl Exec {
                     (Some(t), Some(x), Some(y), Some(z)) => Some(t.ite(x, y, z)),
                     _ => None,
                 };
+                self.pending_spec = Some(Spec::Ite(ra, rb, rc));
                 self.produce(&["C02"], e, |m| m.apply_ite(ra, rb, rc))
             }
             "and" | "or" | "xor" | "eq" | "imply" => {
@@ -872,6 +1089,17 @@ impl Exec {
                     }),
                     _ => None,
                 };
+                self.pending_spec = Some(Spec::Bin(
+                    match op.as_str() {
+                        "and" => 0,
+                        "or" => 1,
+                        "xor" => 2,
+                        "eq" => 3,
+                        _ => 4,
+                    },
+                    ra,
+                    rb,
+                ));
                 self.produce(&["C03"], e, |m| match op.as_str() {
                     "and" => m.apply_and(ra, rb),
                     "or" => m.apply_or(ra, rb),
@@ -895,6 +1123,7 @@ impl Exec {
                     }
                     Some(acc)
                 });
+                self.pending_spec = Some(Spec::Many(is_and, rs.clone()));
                 self.produce(&["C03"], e, |m| if is_and { m.apply_and_many(rs) } else { m.apply_or_many(rs) })
             }
             "cube" | "clause" => {
@@ -913,6 +1142,9 @@ impl Exec {
                         None
                     }
                 });
+                if distinct {
+                    self.pending_spec = Some(Spec::Cube(is_cube, lits.clone()));
+                }
                 self.produce(&["C15"], e, |m| if is_cube { m.cube(lits.clone()) } else { m.clause(lits.clone()) })
             }
             "subst" => {
@@ -924,6 +1156,9 @@ impl Exec {
                     (Some(t), Some(x)) if v >= 1 => Some(if v <= t.n { t.cof(x, v, b) } else { x }),
                     _ => None,
                 };
+                if v >= 1 {
+                    self.pending_spec = Some(Spec::Fix(rf, vec![(v, b)]));
+                }
                 self.produce(&["C08"], e, |m| m.substitute(rf, v, b))
             }
             "substm" | "cofcube" => {
@@ -947,6 +1182,9 @@ impl Exec {
                     }
                     _ => None,
                 };
+                if asc {
+                    self.pending_spec = Some(Spec::Fix(rf, lits.iter().map(|&l| (l.unsigned_abs(), l > 0)).collect()));
+                }
                 self.produce(&["C08"], e, |m| {
                     if is_m {
                         let map: HashMap<u32, bool> = lits.iter().map(|&l| (l.unsigned_abs(), l > 0)).collect();
@@ -964,6 +1202,9 @@ impl Exec {
                     (Some(t), Some(x), Some(y)) if v >= 1 => Some(if v <= t.n { t.compose(x, v, y) } else { x }),
                     _ => None,
                 };
+                if v >= 1 {
+                    self.pending_spec = Some(Spec::Compose(rf, v, rg));
+                }
                 self.produce(&["C09"], e, |m| m.compose(rf, v, rg))
             }
             "constrain" | "restrict" => {
@@ -974,6 +1215,7 @@ impl Exec {
                     (Some(_), Some(x), Some(y)) => Some(self.tt_cr(is_c, x, y)),
                     _ => None,
                 };
+                self.pending_spec = Some(Spec::Care(rf, rg));
                 self.produce(if is_c { &["C10"] } else { &["C11"] }, e, |m| if is_c { m.constrain(rf, rg) } else { m.restrict(rf, rg) })
             }
             "expr" => {
@@ -981,6 +1223,13 @@ impl Exec {
                 match parsed {
                     Some((val, e_fn)) => {
                         let e = tt.and_then(|t| e_fn.eval(&t, &self.exp));
+                        let e_fn = if tt.is_none() {
+                            self.pending_spec = Some(Spec::Expr(e_fn));
+                            EFn::H(0)
+                        } else {
+                            e_fn
+                        };
+                        let _ = &e_fn;
                         self.produce(&["C03"], e, |m| match val {
                             Val::R(r) => m.eval(r),
                             Val::E(x) => m.eval(x),
@@ -1048,6 +1297,20 @@ impl Exec {
                             }
                             self.nontrivial.insert(fnv1a(&format!("itec {:x} {:x} {:x}", x, y, z)));
                         }
+                        if tt.is_none() {
+                            // sampled necessary condition: Some(b) requires the ITE to be b on every sample
+                            if let Some(b) = o {
+                                for k in 0..self.samples.len() {
+                                    let e = self.samples[k];
+                                    if let Ok(Some(v)) = self.spec_at(&Spec::Ite(ra, rb, rc), e) {
+                                        if v != b {
+                                            self.fail(&["C12"], format!("ite_constant = Some({}), but the ITE is {} under the assignment {:#x}", b, v, e));
+                                            break;
+                                        }
+                                    }
+                                }
+                            }
+                        }
                         if self.bdd().storage().real_size() != before {
                             self.fail(&["C12", "C16"], "ite_constant created nodes".into());
                         }
@@ -1077,6 +1340,15 @@ impl Exec {
                                 self.fail(&["C12"], format!("is_implies = {}, tables {:#x} {:#x}", o, x, y));
                             }
                             self.nontrivial.insert(fnv1a(&format!("implies {:x} {:x}", x, y)));
+                        }
+                        if tt.is_none() && o {
+                            for k in 0..self.samples.len() {
+                                let e = self.samples[k];
+                                if let Ok(Some(false)) = self.spec_at(&Spec::Bin(4, ra, rb), e) {
+                                    self.fail(&["C12"], format!("is_implies = true, but f holds and g does not under the assignment {:#x}", e));
+                                    break;
+                                }
+                            }
                         }
                         if self.bdd().storage().real_size() != before {
                             self.fail(&["C12", "C16"], "is_implies created nodes".into());
@@ -1264,6 +1536,20 @@ impl Exec {
                         }
                         if self.bdd().cache().entries().count() != 0 || self.bdd().size_cache().entries().count() != 0 {
                             self.fail(&["C07", "C05"], "a cache entry survived the collection".into());
+                        }
+                        // C05 (more than 6 variables): values on the sample assignments are unchanged
+                        if self.tt.is_none() {
+                            for i in 0..self.env.len() {
+                                if self.live[i] {
+                                    if let Some(Some(g0)) = self.sig.get(i).copied() {
+                                        match self.signature(self.env[i]) {
+                                            Some(g) if g == g0 => {}
+                                            Some(g) => self.fail(&["C05"], format!("h{} = {} had values {:#x} on the samples before the collection and {:#x} after", i, show_ref(self.env[i]), g0, g)),
+                                            None => self.fail(&["C05"], format!("h{} = {} is reachable from the roots but can no longer be evaluated", i, show_ref(self.env[i]))),
+                                        }
+                                    }
+                                }
+                            }
                         }
                         // C05: every live handle denotes what it denoted
                         self.canon.clear();
@@ -1821,6 +2107,27 @@ pub enum EFn {
     Xor(Box<EFn>, Box<EFn>),
 }
 impl EFn {
+    /// value under one assignment, handles evaluated by walking their diagrams
+    pub fn eval_s(&self, ex: &Exec, e: u64) -> Result<Option<bool>, String> {
+        Ok(Some(match self {
+            EFn::H(i) => ex.eval_at(ex.env[*i], e)?,
+            EFn::Not(a) => match a.eval_s(ex, e)? {
+                Some(x) => !x,
+                None => return Ok(None),
+            },
+            EFn::And(a, b) | EFn::Or(a, b) | EFn::Xor(a, b) => {
+                let (x, y) = match (a.eval_s(ex, e)?, b.eval_s(ex, e)?) {
+                    (Some(x), Some(y)) => (x, y),
+                    _ => return Ok(None),
+                };
+                match self {
+                    EFn::And(..) => x & y,
+                    EFn::Or(..) => x | y,
+                    _ => x ^ y,
+                }
+            }
+        }))
+    }
     pub fn eval(&self, t: &TT, exp: &[Option<u64>]) -> Option<u64> {
         Some(match self {
             EFn::H(i) => exp[*i]?,
